@@ -6,10 +6,10 @@ use chrono::{DateTime, Utc};
 use log::debug;
 use serde::Serialize;
 use snafu::{ensure, ResultExt};
-use std::io::ErrorKind;
+use std::io::{ErrorKind, Write};
 use std::path::{Path, PathBuf};
 use std::sync::Arc;
-use tempfile::TempDir;
+use tempfile::{NamedTempFile, TempDir};
 use tokio::sync::{Mutex, RwLock, RwLockReadGuard, RwLockWriteGuard};
 
 /// `Datastore` persists TUF metadata files.
@@ -64,9 +64,21 @@ impl Datastore {
             what: format!("{file} in datastore"),
             path: path.clone(),
         })?;
-        tokio::fs::write(&path, bytes)
-            .await
-            .context(error::DatastoreCreateSnafu { path: &path })
+        // Write to a temporary file next to the destination and rename it into place. Writing in
+        // place truncates the old file first, so a crash or a failed write in between would leave
+        // an empty file behind, and with it lose the version the client had trusted before.
+        let dir = lock.path().to_owned();
+        let destination = path.clone();
+        tokio::task::spawn_blocking(move || {
+            let mut tmp = NamedTempFile::new_in(dir)?;
+            tmp.write_all(&bytes)?;
+            tmp.persist(destination).map_err(|e| e.error)?;
+            Ok(())
+        })
+        .await
+        // We do not cancel the task nor do we expect it to panic
+        .unwrap_or_else(|_| unreachable!())
+        .context(error::DatastoreCreateSnafu { path: &path })
     }
 
     /// Deletes a file from the datastore. This function is thread safe.
